@@ -193,6 +193,15 @@ def catalogue():
     mk("links-only-limited2-vs-insert-before", links_only, [["scan %s - INF - INF 3 0" % S], [P(b"pa", b"new")]],
        extra_finals=[b"pa"])
     mk("sublayer-scan-vs-layer-insert", sub, [[ALL], [P(b"prefix88bb", b"new")]], extra_finals=[b"prefix88bb"])
+    # cursors driven to their end against writers that empty / split the layer they stand in
+    IALL = "iscan %s - INF - INF 0 0" % S
+    IREV = "iscan %s - INF - INF 0 1" % S
+    for nm, cur in (("fwd", IALL), ("rev", IREV)):
+        mk("cursor-%s-vs-layer-emptied" % nm, sub, [[cur], [R(b"prefix88a"), R(b"prefix88b"), R(b"prefix88c")]])
+        mk("cursor-%s-vs-layer-root-split" % nm, [b"prefix88" + bytes([0x61 + i]) for i in range(15)] + [b"a", b"z"],
+           [[cur], [P(b"prefix88A", b"new")]], extra_finals=[b"prefix88A"])
+        mk("cursor-%s-vs-split" % nm, full, [[cur], [P(b"J", b"new")]], extra_finals=[b"J"])
+        mk("cursor-%s-vs-unlink" % nm, two, [[cur], [R(two[0]), P(two[0], b"again")]], removed=two[1:8])
     # scan standing between two borders while the left one is emptied and unlinked (F8)
     mk("scan-vs-unlink-reinsert", two, [["scan %s %s IN %s IN 0 0" % (S, hx(two[0]), hx(two[15]))],
                                         [R(two[0]), P(two[0], b"again")]], removed=two[1:8])
@@ -451,7 +460,7 @@ def check_run(r, scen, want=("lin", "null", "scan", "deadlock", "coherent")):
                 bad.append(("null", "%s returned OK with a null value pointer: %s" % (kind, res)))
                 continue
             perkey.setdefault(k, []).append((o["inv"], o["res"], kind, arg, res))
-        elif kind == "scan":
+        elif kind in ("scan", "iscan"):
             m = re.match(r"(\S+) n=(\d+) t=\[(.*?)\] nvn=(\d+)", res)
             if not m:
                 bad.append(("scan", "unparsable scan result " + res))
@@ -467,13 +476,18 @@ def check_run(r, scen, want=("lin", "null", "scan", "deadlock", "coherent")):
                 if vv == "NULLPTR" and "null" in want:
                     bad.append(("null", "scan returned a null value pointer for key %s" % kk))
             keys = [k for k, _ in tuples]
+            if kind == "iscan" and rtl:
+                keys = keys[::-1]          # a right-to-left cursor delivers in descending order
+                if "scan" in want and keys != sorted(set(keys)):
+                    bad.append(("scan", "right-to-left cursor not strictly descending: %s" % [k.hex() for k in keys[::-1]]))
+                rtl = False                 # ... and delivers every key of the interval, not only the greatest
             if "scan" in want:
                 if keys != sorted(set(keys)):
                     bad.append(("scan", "scan result not strictly ascending: %s" % [k.hex() for k in keys]))
                 for k in keys:
                     if not in_range(k, l, le, rk, re_):
                         bad.append(("scan", "scan returned key %s outside the interval" % k.hex()))
-                if st == "OK" and nvn == 0:
+                if st == "OK" and nvn == 0 and kind == "scan":
                     bad.append(("scan-nv", "scan returned an empty node-version set"))
                 # per-key reads sharing the scan's interval
                 universe = set(init) | {unhex(o2["args"][1]) for o2 in ops if o2["kind"] in ("put", "uput", "rem")}
@@ -483,7 +497,7 @@ def check_run(r, scen, want=("lin", "null", "scan", "deadlock", "coherent")):
                         continue
                     if k in keys:
                         v = dict(tuples)[k]
-                        if v != "NULLPTR":
+                        if v not in ("NULLPTR", "?"):
                             perkey.setdefault(k, []).append((o["inv"], o["res"], "read", v, ""))
                     else:
                         if limited and not rtl and keys and k > keys[-1]:
@@ -861,7 +875,7 @@ def run_conc_property(res, tag, want, shapes, kinds, scans, budget_quick, budget
                             viol.append(("lin", "history of key %s not linearizable" % k.hex(), txt, r.schedule))
     if use_catalogue:
         for sc in catalogue():
-            if not scans and any(o.startswith("scan") for ops in sc.threads for o in ops):
+            if not scans and any(o.startswith(("scan", "iscan")) for ops in sc.threads for o in ops):
                 continue
             n, v, steps, dist, runs = explore_runs(binary, sc, "preempt1", wd, 1600, rng, want)
             total_runs += n
